@@ -61,12 +61,13 @@ Judge(e) ==      \* "ok" | "premise" | "code"
               ELSE IF e.err = 0 /\ e.guess = SegmentCharset(0, IF e.hint = "" THEN 0 ELSE ByName(e.hint), e.bytes) THEN "ok" ELSE "code"
          [] e.op = "qr" ->
               LET k == IF e.hint = "" THEN 0 ELSE ByName(e.hint) IN
-              IF ~QrPremise(e, k) THEN "premise" ELSE IF QrOK(e, k) THEN "ok" ELSE "code"
+              \* hmut: the reader wrote into the hints map its caller keeps for all reads (a guess must not outlive its call)
+              IF ~QrPremise(e, k) THEN "premise" ELSE IF QrOK(e, k) /\ e.hmut = 0 THEN "ok" ELSE "code"
          [] e.op = "parse" ->
               IF ~ParsePremise(e) THEN "premise"
               ELSE LET ek == IF e.eci >= 0 THEN ByValue(e.eci) ELSE 0  hk == IF e.hint = "" THEN 0 ELSE ByName(e.hint) IN
                    IF ~(e.eci >= 0 /\ ek < 1) /\ e.cs # SegmentCharset(ek, hk, e.bytes) THEN "premise"
-                   ELSE IF ParseOK(e) THEN "ok" ELSE "code"
+                   ELSE IF ParseOK(e) /\ e.hmut = 0 THEN "ok" ELSE "code"
          [] OTHER -> "premise"
 Next ==
   /\ l <= NEv
